@@ -11,7 +11,7 @@ Record presult := {
   pr_errors : list perror;
   pr_rec : ptracker;
   pr_tokens_high : N;
-  pr_dropped : list ptoken       (* GHOST: tokens popped and never given to the builder *)
+  pr_dropped : list prstoken       (* GHOST: tokens popped and never given to the builder *)
 }.
 
 (* the fuel the entries run with: a bound on nesting depth and on each loop's iterations; every loop
